@@ -83,6 +83,11 @@ package scen
 //                                      that end while a round is in flight.
 //   schedule-merge                     (label of cadence/catch-up violations
 //                                      whose key's region was consolidated)
+//   schedule-merge-awaits-retry        (same; label of the pending finding: the
+//                                      broader region was handed to the
+//                                      late-region catch-up and was still
+//                                      waiting in the reprovide queue at every
+//                                      quiet point since - see timingRule)
 //   cadence-restart                    "re-advertised ... at least once per
 //                                      reprovide interval plus the allowed
 //                                      delay until it is stopped, regardless of
@@ -456,12 +461,36 @@ type c17Key struct {
 	schedPrefix string
 	hasSched    bool
 	merged      bool
+	// mergeWait: merged, and ever since the merge was observed the reprovide
+	// queue (late regions waiting for the catch-up) has held a prefix that covers
+	// the key at every quiet point (label, see timingRule)
+	mergeWait     bool
+	mergeWaitNote string
 }
 
 // timingRule returns the rule id of a cadence / catch-up violation: the open
 // finding schedule-merge when the key's scheduled region was replaced by a
 // broader one since its last round, else the clause's own id.
+//
+// Pending finding schedule-merge-awaits-retry (what is left of schedule-merge
+// after its repair): StartProviding of a key outside the schedule, made after
+// the prefix-length estimate has shrunk, schedules a region that swallows
+// scheduled longer ones; they lose their pending reprovides and the broader
+// region is put into the reprovide queue to be caught up - but nothing starts
+// the catch-up: it runs when the provider's periodic retry tick comes round
+// (or at the next offline/online transition). A swallowed region whose slot was
+// about to come up is therefore late by up to one retry period, which the
+// allowed delay does not cover when it is configured shorter than that. The
+// label is constructive: the key's region was consolidated since its last
+// round, the broader region was found in the reprovide queue (injected
+// read-only accessor) when the consolidation was observed and at every quiet
+// point from then on to the violation - it has been waiting, not running. A
+// consolidated region that left the queue without the key being advertised is
+// reported as schedule-merge (the repaired finding: a violation again).
 func (k *c17Key) timingRule(clause string) string {
+	if k.merged && k.mergeWait {
+		return "schedule-merge-awaits-retry"
+	}
 	if k.merged {
 		return "schedule-merge"
 	}
@@ -555,6 +584,9 @@ func (h *c17H) labelSlotDown(sched []string) {
 }
 
 func (k *c17Key) mergeNote() string {
+	if k.merged && k.mergeWait {
+		return "; since its last round the scheduled region of the key was replaced by a broader one (schedule merge), and " + k.mergeWaitNote + ": nothing starts the catch-up of a consolidated region, it waits for the provider's next periodic retry"
+	}
 	if k.merged {
 		return "; since its last round the scheduled region of the key was replaced by a broader one (schedule merge)"
 	}
@@ -630,6 +662,7 @@ type c17H struct {
 	offCount             atomic.Int32 // disconnected / offline callbacks of the provider
 	lastOffCount         int32
 	restartAt            time.Duration // instant at which the restart in progress called Close (-1: none)
+	nCalls               int           // lookups and ADD_PROVIDER calls answered by the pump so far
 	downFrom, downTo     time.Duration // the restart whose downtime was accounted at this fixpoint (downFrom < 0: none)
 }
 
@@ -995,7 +1028,7 @@ var c17Soft = os.Getenv("VERIF_C17_SOFT") != ""
 // the unchanged tree. Env VERIF_C17_PENDING=strict raises them regardless
 // (that is how the replays under findings/ were recorded; strict=<rule> only
 // that rule), =soft never does.
-var c17PendingRules = map[string]bool{"first-advert-after-fault-reprovide": true, "buffered-close-drops-batch": true, "buffered-restart-reorder": true, "cadence-restart-regroup": true, "cadence-restart-slot-down": true}
+var c17PendingRules = map[string]bool{"first-advert-after-fault-reprovide": true, "buffered-close-drops-batch": true, "buffered-restart-reorder": true, "cadence-restart-regroup": true, "cadence-restart-slot-down": true, "schedule-merge-awaits-retry": true}
 
 var c17Listed struct {
 	once  sync.Once
@@ -1150,7 +1183,14 @@ func (h *c17H) pump(limit int) (n int, quiet bool, nextDue time.Duration) {
 			delete(h.due, p.ID)
 			h.answer(p)
 			n++
+			h.nCalls++
 			s.Quiesce()
+			if h.nCalls > c17CallBudget {
+				// see c17CallBudget: the run ends here, unjudged from now on
+				s.Count("call_budget_exhausted")
+				h.stop = true
+				return n, false, nextDue
+			}
 			if n > 100000 {
 				s.Count("pump_budget_exhausted")
 				h.stop = true
@@ -1164,6 +1204,31 @@ func (h *c17H) pump(limit int) (n int, quiet bool, nextDue time.Duration) {
 	}
 	return n, quiet, nextDue
 }
+
+// c17CallBudget bounds the number of lookups and ADD_PROVIDER calls the pump
+// answers in one run. While recipients refuse its records but the router
+// answers (send black-out, failing recipients), the provider still believes it
+// is online and retries every failed provide without back-off: each pending key
+// costs one lookup and r sends per failure latency of virtual time, for as long
+// as the fault lasts. A black-out of a few hours (intervals of up to 4 h, time
+// steps of up to interval + max delay) with some dozens of pending keys at the
+// thorough sizes then means several hundred thousand calls - replay
+// C17-1-60965-wedge: 146 000 lookups and 324 000 refused sends, five minutes of
+// wall time, killed by the 20 s watchdog and reported as a wedge although
+// virtual time advanced all the time and the run ends normally when left alone.
+// Such a run repeats one state over and over; nothing is learnt from it. Like
+// the step budget, the call budget is not a violation: the run stops (no drain,
+// no further deadline is checked), the provider is closed and the goroutine
+// census still runs. The number of answered calls is a function of the tape,
+// so the cut is reproducible. Measured at the thorough sizes (24 000 runs):
+// fault-free runs stay below 2 000 calls (a round of one key is a lookup and r
+// sends), 99.4 % of the fault runs below 5 000, and no run of the quick size
+// classes was seen above 5 000; one call costs 0.1 - 0.3 ms of wall time on an
+// idle machine, so a run stays near one second - the worst case of the quick
+// tier - and keeps a wide margin to the watchdog on a loaded one (with a
+// budget of 10 000 a 2 s run was still killed once when the machine was
+// oversubscribed; it took 0.95 s when re-executed).
+const c17CallBudget = 5000
 
 // dupLabels reports whether two parked calls carry the same label.
 func (h *c17H) dupLabels(ps []*sim.Parked) bool {
@@ -1401,14 +1466,17 @@ func (h *c17H) labelForgotten() {
 // checks the per-message rules (payload, reported recipient, stop).
 func (h *c17H) observe() {
 	s := h.s
-	log := h.snd.Snapshot()
-	for len(h.seen) < len(log) {
+	// (only the part of the log that is not folded yet: a run with a long send
+	// black-out makes several hundred thousand calls)
+	base := h.logIdx
+	tail, total := h.snd.SnapshotFrom(base)
+	for len(h.seen) < total {
 		h.seen = append(h.seen, false)
 	}
 	self := h.u.Self.ID
 	cur := h.selfAddrs()
-	for i := h.logIdx; i < len(log); i++ {
-		r := log[i]
+	for i := base; i < total; i++ {
+		r := tail[i-base]
 		if h.seen[i] || !r.Done {
 			continue
 		}
@@ -1452,7 +1520,7 @@ func (h *c17H) observe() {
 			k.spanning = true // the send itself took time: it was failed or cut
 		}
 	}
-	for h.logIdx < len(log) && h.seen[h.logIdx] {
+	for h.logIdx < total && h.seen[h.logIdx] {
 		h.logIdx++
 	}
 }
@@ -1599,6 +1667,7 @@ func (h *c17H) fixpoint(quiet bool) {
 			k.lastComplete, k.ever = now, true
 			k.nComplete++
 			k.merged, k.regroup, k.slotDown = false, false, false
+			k.mergeWait = false
 			roundNow[k.idx] = true
 			k.pendingFirst, k.resumePending = false, false
 			k.catchDue, k.promptDue = -1, -1
@@ -1661,7 +1730,17 @@ func (h *c17H) fixpoint(quiet bool) {
 					if h.inWindow && h.cleanCut && k.validBefore && !k.msgsInFault {
 						// rule catch-up-prompt (clean-cut full outages only)
 						d := k.lastComplete + h.boundC
-						if firstCycle && c.skipBoot {
+						if c.skipBoot && (firstCycle || k.lastComplete < h.bootOnlineAt+c.interval) {
+							// WithSkipBootstrapReprovide (see the cadence rule below, which
+							// grants the same): the schedule of an instance starts with the
+							// cycle after the one in which it came online, so the next round
+							// of a key advertised during that first cycle is not due before
+							// one more interval has passed - whether or not an outage
+							// happens meanwhile, and also when the outage ends after that
+							// first cycle (replay C17-1-71598: round at 11m3, instance online
+							// since 11m3, slot 25m18 skipped by the option, outage 11m3..42m42;
+							// the key's first scheduled round is the one at 55m18 and was not
+							// "missed during the outage")
 							d += c.interval
 						}
 						if d < now+c17FirstBound {
@@ -1728,9 +1807,22 @@ func (h *c17H) fixpoint(quiet bool) {
 					// the region k is scheduled under was replaced by a broader one
 					// without k being advertised at that instant
 					k.merged = true
+					if q, ok := provider.VerifReprovideQueueCovering(h.prov, k.mh); ok {
+						k.mergeWait = true
+						k.mergeWaitNote = fmt.Sprintf("the broader region %q has been waiting in the reprovide queue (as %q) since the consolidation was observed at %v", p, q, now)
+					} else {
+						k.mergeWait = false
+					}
 				}
 				k.schedPrefix, k.hasSched = p, true
 				break
+			}
+			if k.mergeWait && quiet {
+				// (only at quiet points: while calls are in flight the catch-up may
+				// have taken the region out of the queue and be advertising it)
+				if _, ok := provider.VerifReprovideQueueCovering(h.prov, k.mh); !ok {
+					k.mergeWait = false
+				}
 			}
 		}
 		if h.downFrom >= 0 {
@@ -1767,7 +1859,7 @@ func (h *c17H) fixpoint(quiet bool) {
 			bound += c.interval
 		}
 		if k.kept && h.cleanSince >= 0 && k.lastComplete >= h.cleanSince && now-k.lastComplete > bound {
-			s.Violate(k.timingRule("cadence"), "%s kept for reproviding: last complete round at %v, none since, now %v (interval %v + max delay %v + 5%%); node online and fault-free since %v%s", k.name, k.lastComplete, now, c.interval, c.maxDelay, h.cleanSince, k.mergeNote())
+			h.violatePending(k.timingRule("cadence"), "%s kept for reproviding: last complete round at %v, none since, now %v (interval %v + max delay %v + 5%%); node online and fault-free since %v%s", k.name, k.lastComplete, now, c.interval, c.maxDelay, h.cleanSince, k.mergeNote())
 			k.lastComplete = -1
 		}
 		if k.kept && k.xLast >= 0 && h.cleanSince >= 0 && h.restartAt < 0 && now-k.xLast > h.boundC+k.xDown {
@@ -1777,7 +1869,7 @@ func (h *c17H) fixpoint(quiet bool) {
 			k.xLast = -1
 		}
 		if k.kept && k.catchDue >= 0 && now > k.catchDue {
-			s.Violate(k.timingRule("catch-up"), "%s kept for reproviding has no complete round by %v although the node is online and fault-free again since %v%s", k.name, k.catchDue, h.cleanSince, k.mergeNote())
+			h.violatePending(k.timingRule("catch-up"), "%s kept for reproviding has no complete round by %v although the node is online and fault-free again since %v%s", k.name, k.catchDue, h.cleanSince, k.mergeNote())
 			k.catchDue = -1
 		}
 		if k.kept && k.promptDue >= 0 && now > k.promptDue {
@@ -1972,6 +2064,9 @@ func (h *c17H) api(name string, f func() error) bool {
 		// blocked behind a parked call: answer calls until it returns
 		h.pump(-1)
 		s.Count("probe_api_blocked")
+		if h.stop {
+			return false // call budget used up: the run ends unjudged
+		}
 	}
 	if op.Panic != "" {
 		s.Violate("api-panic", "%s panicked: %s", name, firstLine(op.Panic))
@@ -2033,7 +2128,7 @@ func (h *c17H) accept(ks []*c17Key, kind string, force bool) {
 			k.stoppedAt = -1
 			if !wasKept {
 				// rounds of an earlier life (or of a ProvideOnce) do not count
-				k.lastComplete, k.validBefore, k.merged = -1, false, false
+				k.lastComplete, k.validBefore, k.merged, k.mergeWait = -1, false, false, false
 				k.xLast, k.regroup = -1, false
 			}
 			if wasKept && !force {
@@ -2169,6 +2264,15 @@ func c17SweepBody(s *sim.Sim, c *c17Cfg, h *c17H) {
 		}
 	}
 	s.Tracef("done kept=%d", nKept)
+	if os.Getenv("VERIF_C17_CALLHIST") != "" {
+		// development aid: distribution of the number of answered calls per run
+		for _, b := range []int{1000, 2000, 5000, 10000, 20000, 50000, 100000, 1 << 40} {
+			if h.nCalls <= b {
+				s.Count(fmt.Sprintf("calls_le_%07d_c%d_f%v", b, c.class, c.faults))
+				break
+			}
+		}
+	}
 	s.NonTrivial = nRe > 0 || (nEver > 0 && (s.Stats["fault_outage"] > 0 || s.Stats["restart"] > 0 || s.Stats["swarm_grow"]+s.Stats["swarm_shrink"] > 0))
 
 	if h.prov != nil {
@@ -2282,7 +2386,7 @@ func (h *c17H) step() {
 				k.stoppedAt = now
 				k.lastComplete = -1 // a later StartProviding starts a new history
 				k.xLast, k.regroup = -1, false
-				k.validBefore, k.merged = false, false
+				k.validBefore, k.merged, k.mergeWait = false, false, false
 				// an unacknowledged first advertisement may or may not still happen
 				k.pendingFirst, k.resumePending = false, false
 				k.catchDue, k.promptDue = -1, -1
